@@ -477,6 +477,8 @@ impl Worker {
             return;
         }
 
+        #[cfg(sierradb_verif)]
+        let verif_txn = crate::verif::uuid_parts(&transaction_id);
         let bytes_since_sync = writer_set.bytes_since_sync;
         let res = writer_set.handle_write(WriteOperation {
             partition_key,
@@ -499,6 +501,20 @@ impl Worker {
             .has_recent_activity
             .store(true, Ordering::Relaxed);
 
+        #[cfg(sierradb_verif)]
+        crate::verif::point(
+            "txn_written",
+            &[
+                bucket_id as u64,
+                writer_set.bucket_segment_id.segment_id as u64,
+                write_offset,
+                writer_set.writer.write_offset(),
+                verif_txn.0,
+                verif_txn.1,
+                res.is_ok() as u64,
+            ],
+        );
+
         let _ = reply_tx.send(res.map(|append| FullAppendResult {
             append,
             write_offset: writer_set.writer.write_offset(),
@@ -507,6 +523,8 @@ impl Worker {
     }
 
     fn handle_flush_poll(&mut self) {
+        #[cfg(sierradb_verif)]
+        crate::verif::point("flush_poll", &[self.thread_id as u64]);
         for writer_set in self.writers.values_mut() {
             writer_set.sync_if_necessary();
         }
@@ -593,6 +611,8 @@ impl WriterSet {
                 payload: LongBytes(event.payload),
             };
             let (offset, len) = self.writer.append_event(req.confirmation_count, &append)?;
+            #[cfg(sierradb_verif)]
+            crate::verif::point("write.after_event", &[self.bucket_segment_id.bucket_id as u64, offset]);
             offsets.push(offset);
             self.bytes_since_sync += len;
             // We need to guarantee:
@@ -645,6 +665,14 @@ impl WriterSet {
     }
 
     fn sync(&mut self) -> Result<(), WriteError> {
+        #[cfg(sierradb_verif)]
+        crate::verif::point(
+            "ws.sync.begin",
+            &[
+                self.bucket_segment_id.bucket_id as u64,
+                self.bucket_segment_id.segment_id as u64,
+            ],
+        );
         let write_offset = self.writer.sync()?;
         self.last_synced = Instant::now();
         self.unflushed_events = 0;
@@ -677,6 +705,15 @@ impl WriterSet {
             }
         }
         self.sync_tx.send_replace(write_offset);
+        #[cfg(sierradb_verif)]
+        crate::verif::point(
+            "ws.sync.end",
+            &[
+                self.bucket_segment_id.bucket_id as u64,
+                self.bucket_segment_id.segment_id as u64,
+                write_offset,
+            ],
+        );
 
         Ok(())
     }
@@ -779,6 +816,14 @@ impl WriterSet {
             )
         };
 
+        #[cfg(sierradb_verif)]
+        crate::verif::point(
+            "rollover.swapped",
+            &[
+                old_bucket_segment_id.bucket_id as u64,
+                old_bucket_segment_id.segment_id as u64,
+            ],
+        );
         self.reader_pool.add_bucket_segment(
             old_bucket_segment_id,
             &old_reader,
@@ -786,8 +831,24 @@ impl WriterSet {
             Some(&closed_partition_index),
             Some(&closed_stream_index),
         );
+        #[cfg(sierradb_verif)]
+        crate::verif::point(
+            "rollover.installed_old",
+            &[
+                old_bucket_segment_id.bucket_id as u64,
+                old_bucket_segment_id.segment_id as u64,
+            ],
+        );
         self.reader_pool
             .add_bucket_segment(self.bucket_segment_id, &self.reader, None, None, None);
+        #[cfg(sierradb_verif)]
+        crate::verif::point(
+            "rollover.done",
+            &[
+                old_bucket_segment_id.bucket_id as u64,
+                self.bucket_segment_id.segment_id as u64,
+            ],
+        );
 
         Ok(())
     }
